@@ -28,6 +28,12 @@ for d in sorted(glob.glob(S+'/*/')):
         fired=re.findall(r'^FIRED:(.*)$',txt,re.M)
         meta['detected_by_quick']=fired[-1].split() if fired else []
         meta['detection_lines']=[l[:300] for l in txt.splitlines() if ' rc=1 ' in l or ' rc=2 ' in l]
+    d2='/tmp/detect2-%s.log'%name
+    if os.path.exists(d2):
+        txt=open(d2).read()
+        fired=re.findall(r'^FIRED:(.*)$',txt,re.M)
+        meta['detected_after_strengthening']=fired[-1].split() if fired else []
+        meta['detection_lines_after_strengthening']=[l[:300] for l in txt.splitlines() if ' rc=1 ' in l][:4]
     json.dump(meta,open(meta_p,'w'),indent=1,ensure_ascii=False)
     rows.append((name,meta))
 with open(S+'/README.md','w') as f:
